@@ -186,7 +186,24 @@ var S6 = Schema{
 	},
 }
 
-var Schemas = []*Schema{&S1, &S2, &S3, &S4, &S5, &S6}
+// S7: look-alike column names - columns that end with, start with or contain the name of the auto-increment key.
+var S7 = Schema{
+	ID: "s7", Table: "t_s7", PK: []string{"id"},
+	DDL:  "CREATE TABLE t_s7 (id INT NOT NULL AUTO_INCREMENT, ref_id INT, idx INT, PRIMARY KEY (id))",
+	Rows: []string{"(1,10,100)", "(2,20,200)", "(3,NULL,300)", "(10,70,NULL)"},
+	Stmts: []Stmt{
+		st("insert", "ins-suffix-col", "INSERT INTO t_s7 (ref_id, idx) VALUES (40, 400)"),
+		st("insert", "ins-suffix-only", "INSERT INTO t_s7 (ref_id) VALUES (?)", 41),
+		st("insert", "ins-prefix-only", "INSERT INTO t_s7 (idx) VALUES (402), (403)"),
+		st("insert", "ins-all", "INSERT INTO t_s7 (id, ref_id, idx) VALUES (9, 90, 900)"),
+		st("update", "upd-suffix-col", "UPDATE t_s7 SET ref_id = ? WHERE id = ?", 11, 1),
+		st("update", "upd-by-suffix-col", "UPDATE t_s7 SET idx = idx + 1 WHERE ref_id = 20"),
+		st("delete", "del-by-suffix-col", "DELETE FROM t_s7 WHERE ref_id >= ?", 10),
+		st("delete", "del-key", "DELETE FROM t_s7 WHERE id = 3"),
+	},
+}
+
+var Schemas = []*Schema{&S1, &S2, &S3, &S4, &S5, &S6, &S7}
 
 func SchemaByID(id string) *Schema {
 	for _, s := range Schemas {
